@@ -14,13 +14,24 @@ from .models import IterV, _str_of
 WS = (9, 10, 11, 12, 13, 32)
 
 
+def el_len(e):
+    """byte length of one element: a constant character has its UTF-8 length, a digit atom is ASCII, a number run is symbolic"""
+    if e[0] == "b":
+        return Lin.const(1)
+    if e[0] != "c":
+        return e[2]
+    if e[1].is_const():
+        return Lin.const(len(chr(e[1].k).encode()))
+    return Lin.const(1)
+
+
 class TStr(Str):
     __slots__ = ("els",)
 
     def __init__(self, els, name):
         ln = Lin.const(0)
         for e in els:
-            ln = ln + (Lin.const(1) if e[0] == "c" else e[2])
+            ln = ln + el_len(e)
         Str.__init__(self, s=None, sym=name, ln=ln)
         self.els = tuple(els)
 
@@ -33,6 +44,8 @@ def render(els):
     for e in els:
         if e[0] == "c":
             out.append(chr(e[1].k) if e[1].is_const() else "#")
+        elif e[0] == "b":
+            out.append("\\x%02x" % e[1].k if e[1].is_const() else "\\x??")
         else:
             out.append("<%s>" % e[1])
     return "".join(out)
@@ -49,9 +62,9 @@ class Ctx:
     # ---------------------------------------------------------------- construction
     def mk(self, els):
         els = tuple(els)
-        if all(e[0] == "c" and e[1].is_const() for e in els):
+        if els and all(e[0] == "c" and e[1].is_const() for e in els) or not els:
             s = "".join(chr(e[1].k) for e in els)
-            return Str(s=s, ln=Lin.const(len(s)))
+            return Str(s=s, ln=Lin.const(len(s.encode())))
         self.n += 1
         return TStr(els, "tstr%d" % self.n)
 
@@ -76,14 +89,29 @@ class Ctx:
     def els_of(self, s):
         if isinstance(s, TStr):
             return s.els
-        if isinstance(s, Str) and s.s is not None and all(ord(ch) < 128 for ch in s.s):
+        if isinstance(s, Str) and s.s is not None:
             return tuple(self.lit(s.s))
         return None
+
+    def bytes_of(self, els):
+        """the template as a list of byte values (Lin), or None when an element has no fixed byte length"""
+        out = []
+        for e in els:
+            if e[0] == "b":
+                out.append(e[1])
+            elif e[0] == "c":
+                if e[1].is_const():
+                    out.extend(Lin.const(x) for x in chr(e[1].k).encode())
+                else:
+                    out.append(e[1])  # a digit: one ASCII byte
+            else:
+                return None
+        return out
 
     def bounds_of(self, els):
         out = [Lin.const(0)]
         for e in els:
-            out.append(out[-1] + (Lin.const(1) if e[0] == "c" else e[2]))
+            out.append(out[-1] + el_len(e))
         return out
 
     def find(self, st, bnds, x):
@@ -114,7 +142,11 @@ class Ctx:
         H["core::str::<impl str>::starts_with"] = self.m_starts_with
         H["core::str::<impl str>::trim_end_matches"] = self.m_trim_end_matches
         H["core::str::<impl str>::get"] = self.m_get
+        H["core::str::traits::<impl core::ops::Index<I> for str>::index"] = self.m_index
+        H["core::slice::index::<impl core::ops::Index<I> for [T]>::index"] = self.m_bytes_index
+        H["core::cmp::impls::<impl core::cmp::PartialEq<&B> for &A>::eq"] = self.m_ref_eq
         H["core::str::<impl str>::char_indices"] = self.m_char_indices
+        H["core::iter::Iterator::nth"] = self.m_nth
         H["<core::str::CharIndices<'a> as core::iter::Iterator>::next"] = self.m_next
         H["core::char::methods::<impl char>::is_numeric"] = self.m_is_numeric
         H["core::char::methods::<impl char>::len_utf8"] = self.m_len_utf8
@@ -208,7 +240,85 @@ class Ctx:
         # provably out of range?
         if implies(st.cons, s.len - b + 1, "<=", st.bnd) or implies(st.cons, b - a + 1, "<=", st.bnd):
             return [(st, eng.mk_option(dest_tid, None))]
+        # an index strictly inside a multi-byte character is not a char boundary
+        for x, ix in ((a, i), (b, j)):
+            if ix is None and x.is_const() and all(bb.is_const() for bb in bnds):
+                if any(bnds[k].k < x.k < bnds[k + 1].k for k in range(len(bnds) - 1)):
+                    return [(st, eng.mk_option(dest_tid, None))]
         return NotImplemented
+
+    def m_index(self, eng, st, c, args, dest_tid, t):
+        """s[a..b] on a template: the slice when both ends are element boundaries, a panic when one provably is not"""
+        from .strmodels import range_of
+        s = _str_of(eng, st, args[0])
+        if not isinstance(s, TStr):
+            return NotImplemented
+        rg = range_of(eng, st, args[1], s.len)
+        if rg is None:
+            return NotImplemented
+        a, b = rg
+        bnds = self.bounds_of(s.els)
+        i, j = self.find(st, bnds, a), self.find(st, bnds, b)
+        if i is not None and j is not None and i <= j:
+            return [(st, Ref(val=self.mk(s.els[i:j])))]
+        if i is not None and j is not None:
+            st.end = "panic"
+            eng.event(st, "panic", "str slicing with start > end on a template", callee="str::index")
+            return [(st, DIVERGE)]
+        return NotImplemented
+
+    def m_bytes_index(self, eng, st, c, args, dest_tid, t):
+        """bytes[a..b] of a template's bytes (as_bytes keeps the template): the sub-template when both ends are element boundaries"""
+        from .strmodels import range_of
+        s = _str_of(eng, st, args[0])
+        if s is None or isinstance(args[1], Int):
+            return NotImplemented
+        els = self.els_of(s)
+        if els is None:
+            return NotImplemented
+        rg = range_of(eng, st, args[1], s.len)
+        if rg is None:
+            return NotImplemented
+        a, b = rg
+        bnds = self.bounds_of(els)
+        i, j = self.find(st, bnds, a), self.find(st, bnds, b)
+        if i is not None and j is not None and i <= j:
+            return [(st, Ref(val=self.mk(els[i:j])))]
+        # a byte slice may cut a multi-byte character: fall back to the byte-level template
+        bs = self.bytes_of(els)
+        if bs is not None and a.is_const() and b.is_const() and 0 <= a.k <= b.k <= len(bs):
+            self.n += 1
+            return [(st, Ref(val=TStr([("b", x) for x in bs[a.k:b.k]], "bytes%d" % self.n)))]
+        return NotImplemented
+
+    def m_ref_eq(self, eng, st, c, args, dest_tid, t):
+        """&[u8] == &[u8] / &str == &str where a template is involved: element-wise, exact when every element is decided"""
+        a = _str_of(eng, st, args[0])
+        b = _str_of(eng, st, args[1])
+        if a is None or b is None:
+            return NotImplemented
+        if a.s is not None and b.s is not None:
+            return [(st, Bool(TRUE if a.s == b.s else FALSE))]
+        return self.m_eq(eng, st, c, [Ref(val=a), Ref(val=b)], dest_tid, t)
+
+    def m_nth(self, eng, st, c, args, dest_tid, t):
+        """s.chars().nth(k) on a template, k constant"""
+        ref = args[0]
+        it = eng.deref(st, ref) if isinstance(ref, Ref) else None
+        n = args[1]
+        if not (isinstance(it, IterV) and it.ikind == "chars" and it.n == 0 and isinstance(n, Int) and n.lin.is_const()):
+            return NotImplemented
+        s = _str_of(eng, st, it.a)
+        els = self.els_of(s) if s is not None else None
+        if els is None or (not isinstance(s, TStr) and s.s is None):
+            return NotImplemented
+        k = n.lin.k
+        if k >= len(els):
+            return [(st, eng.mk_option(dest_tid, None))]
+        if any(e[0] != "c" for e in els[:k + 1]):
+            return NotImplemented
+        char_tid = eng.types[dest_tid]["variants"][1]["ftys"][0]
+        return [(st, eng.mk_option(dest_tid, Int(els[k][1], char_tid)))]
 
     def m_char_indices(self, eng, st, c, args, dest_tid, t):
         s = _str_of(eng, st, args[0])
@@ -256,6 +366,8 @@ class Ctx:
         lo, hi = interval(ch.lin, st.bnd)
         if 0 <= lo and hi < 128:
             return [(st, Int(Lin.const(1), dest_tid))]
+        if lo == hi:
+            return [(st, Int(Lin.const(len(chr(lo).encode())), dest_tid))]
         return NotImplemented
 
     def m_eq(self, eng, st, c, args, dest_tid, t):
@@ -266,6 +378,12 @@ class Ctx:
         ea, eb = self.els_of(a), self.els_of(b)
         if ea is None or eb is None:
             return NotImplemented
+        if any(e[0] == "b" or (e[0] == "c" and e[1].is_const() and e[1].k > 127) for e in ea + eb):
+            # byte-level comparison
+            ba, bb_ = self.bytes_of(ea), self.bytes_of(eb)
+            if ba is None or bb_ is None:
+                return NotImplemented
+            ea, eb = [("c", x) for x in ba], [("c", x) for x in bb_]
         if all(e[0] == "c" for e in ea + eb):
             if len(ea) != len(eb):
                 return [(st, Bool(FALSE))]
@@ -319,6 +437,25 @@ class Ctx:
             st.trace.append(("lexical-int", render(els)))
             return [(st, Enum(dest_tid, ok_vi, (Int(val, val_tid),)))]
         if vt["k"] == "float":
+            if els and all(e[0] == "c" for e in els) and len(els) <= 15:
+                val = Lin.const(0)
+                n = len(els)
+                digits = True
+                for i, e in enumerate(els):
+                    lo, hi = interval(e[1], st.bnd)
+                    if hi < 48 or lo > 57:
+                        # a character no decimal number contains (letters other than e/E/inf/nan spellings, white space): an error
+                        if lo == hi and (chr(lo).isspace() or (chr(lo).isalpha() and chr(lo) not in "eEinfatyINFATY") or lo > 127):
+                            return err("non-number")
+                        digits = False
+                    elif lo < 48 or hi > 57:
+                        digits = False
+                    else:
+                        val = val + (e[1] - 48).scale(10 ** (n - 1 - i))
+                if digits:
+                    st.trace.append(("lexical-float-int", render(els)))
+                    return [(st, Enum(dest_tid, ok_vi, (Flt(("i2f", val.key(), val)),)))]
+                return NotImplemented
             if len(els) == 1 and els[0][0] == "num":
                 st.trace.append(("lexical-float", els[0][1]))
                 return [(st, Enum(dest_tid, ok_vi, (Flt(("numval", els[0][1])),)))]
